@@ -3,10 +3,13 @@
 # applies the seed to /repo, starts the matching harnesses (the driver snapshots /repo at start), reverts /repo at once,
 # then waits for the result.  Serialised on a lock so that two seeds are never in /repo at the same time.
 name=$1; rx=$2
+# <seed name> may also be name=/path/to/patch.diff
+patch=/verif/seeded/$name/patch.diff
+case "$name" in *=*) patch=${name#*=}; name=${name%%=*};; esac
 (
 flock 9
 cd /repo && git diff --quiet || { echo "/repo not clean"; exit 2; }
-git -C /repo apply /verif/seeded/$name/patch.diff 2>/dev/null || git -C /repo apply --3way /verif/seeded/$name/patch.diff || { echo "APPLY FAILED $name"; git -C /repo checkout -- .; exit 2; }
+git -C /repo apply $patch 2>/dev/null || git -C /repo apply --3way $patch || { echo "APPLY FAILED $name"; git -C /repo checkout -- .; exit 2; }
 cd /verif && (VERIF_NO_LOCK=1 VERIF_EVIDENCE_DIR=/tmp/ev_tmp VERIF_JOBS=${JOBS:-4} VERIF_MAX_REPLAYS=${REPLAYS:-0} ./check ALL ${TIER:-quick} --only "$rx" > /tmp/seedrun_$name.log 2>&1 9>&- &)
 for i in $(seq 1 60); do grep -q "scratch" /tmp/seedrun_$name.log 2>/dev/null && break; sleep 1; done
 git -C /repo checkout -- . ; git -C /repo reset -q
